@@ -475,7 +475,7 @@ func plyCutPos(data []byte, bodyStart int, ascii bool, k int) string {
 		if k == 0 || data[k-1] == '\n' {
 			return fmt.Sprintf("HLines %d", bytes.Count(data[:k], []byte("\n")))
 		}
-		return "HMid"
+		return fmt.Sprintf("(HMid %d)", bytes.Count(data[:k], []byte("\n")))
 	}
 	if !ascii {
 		return fmt.Sprintf("BBin %d", k-bodyStart)
@@ -616,7 +616,7 @@ func fileCase(d fileDesc, thorough bool) hx.Case {
 		if !ok {
 			fc = "{| pf_header := []; pf_body := BodyBin [] |}"
 			for i := range obs { // no model view of this file: class comparison skipped
-				obs[i] = obs[i][:strings.LastIndex(obs[i], ",")] + ",HMid)"
+				obs[i] = obs[i][:strings.LastIndex(obs[i], ",")] + ",NoModel)"
 			}
 		}
 		c.Coq = fmt.Sprintf("CPly %d %d %s [%s]", len(data), need, fc, strings.Join(obs, ";"))
